@@ -210,6 +210,30 @@ func (p *pathRun) nondetVar(name string, s smt.Sort) *smt.Term {
 func (p *pathRun) concretize(fr *frame, s symInt, what string) int64 {
 	c := p.ctx
 	w := kindWidth(s.k)
+	if s.t.Op == "app" && s.t.Name == "bytelen" {
+		// byte length of an integer: case split by its definition, longest first
+		t := s.t.Args[0]
+		max := 80
+		if b := p.fitsTab[t]; b != nil {
+			max = (b.BitLen() + 6) / 8
+		} else if t.Op == "bv2nat" {
+			max = t.Args[0].Sort.W / 8
+		} else if t.Op == "mod" && t.Args[1].IsConst() {
+			max = (t.Args[1].Val.BitLen() + 7) / 8
+		}
+		for n := max; n >= 0; n-- {
+			var cond *smt.Term
+			if n == 0 {
+				cond = c.Eq(t, c.IntC64(0))
+			} else {
+				cond = c.And(c.Ge(t, c.IntC(pow2(uint(8*(n-1))))), c.Lt(t, c.IntC(pow2(uint(8*n)))))
+			}
+			if p.fork(cond, "byte length case split") {
+				return int64(n)
+			}
+		}
+		panic(unsupported("byte length beyond the case-split bound for " + what))
+	}
 	for tries := 0; tries < 4096; tries++ {
 		var val *big.Int
 		r, m, _ := p.queryFor(s.t)
@@ -220,6 +244,12 @@ func (p *pathRun) concretize(fr *frame, s symInt, what string) int64 {
 			panic(unsupported("cannot concretise symbolic " + what))
 		}
 		val = m
+		if s.t.Sort.K == smt.KInt {
+			if p.fork(c.Eq(s.t, c.IntC(val)), "concretize "+what) {
+				return val.Int64()
+			}
+			continue
+		}
 		eq := c.Eq(s.t, c.BVC(w, val))
 		if p.fork(eq, "concretize "+what) {
 			if kindSigned(s.k) && val.Bit(w-1) == 1 {
